@@ -25,7 +25,27 @@ func VerifC04_v7_aliases() {
 	body.Lvl = &three
 	var q wireInt
 	qAbsent, keyInvalid := true, false
-	switch nondetChoice("focus", 6) {
+	switch nondetChoice("focus", 7) {
+	case 6: // alias attribute with validations of its own, and a plain sibling
+		if nondetBool("base-set") {
+			bases := []string{"AB", "CD", "ab", "EF", "A"}
+			b := bases[nondetChoice("base", len(bases))]
+			body.Base = &b
+			if !verifCodePat.MatchString(b) {
+				rules["invalid_pattern"] = true
+			}
+			if b != "AB" && b != "CD" && b != "ab" {
+				rules["invalid_enum_value"] = true
+			}
+		}
+		if nondetBool("quote-set") {
+			quotes := []string{"GB", "AB", "gb", "GBP"}
+			q := quotes[nondetChoice("quote", len(quotes))]
+			body.Quote = &q
+			if !verifCodePat.MatchString(q) {
+				rules["invalid_pattern"] = true
+			}
+		}
 	case 0: // array of alias
 		n := nondetChoice("codes-len", 3)
 		for i := 0; i < n; i++ {
